@@ -139,6 +139,18 @@ def run(tier, seed, replay=None):
         if tag == "input_mesh_file_path":
             verdict = "reject"      # the mesh file cannot be found
         mutants.append(("xmlspec:%s:%s:c%d:f%d" % (tag, ft["kind"], ft["c"], ft["f"]), verdict, xml, base_vtk))
+    # ---- thousands of malformed cells at once (every cell names an undefined cell type): the cells are initialised in parallel, so
+    # many threads report a rejection at the same moment; the start-up must still end with one exception, every time
+    nbad = 3000
+    pts, rows_ = [], []
+    for i in range(nbad):
+        o = 4 * i
+        x = 3.0 * (i % 60); y = 3.0 * ((i // 60) % 60)
+        pts += [(x + 1e-5, y, 0.0), (x, y + 1e-5, 0.0), (x, y, 1e-5), (x, y, 0.0)]
+        rows_.append([17, 4, 3, o, o + 2, o + 1, 3, o, o + 1, o + 3, 3, o + 1, o + 2, o + 3, 3, o, o + 3, o + 2])
+    many = {"npoints": 4 * nbad, "coords": pts, "ncells": nbad, "nints": 18 * nbad, "rows": rows_, "ntypes": nbad, "ctypes": [42] * nbad, "cdn": nbad, "typeids": [3] * nbad}
+    for r in range(4 if tier == "quick" else 16):
+        mutants.append(("vtkmany:undefined_type_x%d#%d" % (nbad, r), "reject", xml0, render_vtk(many)))
     # ---- token / byte level faults of both files (crash-freedom only)
     nt = 120 if tier == "quick" else 1500
     for key, txt in token_mutants(base_vtk, rnd, nt, "vtk"):
@@ -163,7 +175,7 @@ def run(tier, seed, replay=None):
         with open(xp, "w", errors="surrogateescape") as f:
             f.write(xml.replace(mesh_path, mp))
         try:
-            p = subprocess.run([os.path.join(bdir, "startup_driver"), xp], capture_output=True, text=True, errors="replace", timeout=60, env=dict(os.environ, OMP_NUM_THREADS="2"))
+            p = subprocess.run([os.path.join(bdir, "startup_driver"), xp], capture_output=True, text=True, errors="replace", timeout=60, env=dict(os.environ, OMP_NUM_THREADS=("4" if key.startswith("vtkmany") else "2")))
             last = ([l for l in p.stdout.splitlines() if l.startswith("OUTCOME")] or [""])[-1]
             if p.returncode == 0 and last.startswith("OUTCOME completed"):
                 oc = "completed"
